@@ -40,6 +40,7 @@ THEOREMS = [
     "Spydr.Names.conflictsFix_finished",
     "Spydr.Names.makeValid_fresh_bounded",
     "Spydr.Names.rename_recorded",
+    "Spydr.Names.rename_written",
     "Spydr.Names.assign_all_distinct",
     "Spydr.Names.assign_all_scopeOk",
     # formal record of the open findings: the pinned rules violate the statements (decide-checked witnesses)
@@ -194,7 +195,7 @@ def _sdn(rng, base, digits=None):
     return base + "_sdn_" + digits + "_"
 
 
-def gen_sibs(rng, n, allow_dup, quote_p=0.0, long_p=0.15, pre_p=0.15, corner_p=0.03):
+def gen_sibs(rng, n, allow_dup, quote_p=0.0, long_p=0.07, pre_p=0.15, corner_p=0.02):
     """A sibling list: dicts name / ident (pre-existing identifier or None) / rename."""
     names = []
     long_stem = None
@@ -283,12 +284,39 @@ def gen_input(rng, tier, level=None):
         n = rng.choice([1, 2, 3, 4, 6]) if sc != "libraries" else rng.choice([1, 2, 3])
         if sc == "definitions":
             n = max(n, 2)
-        s = gen_sibs(rng, n, allow_dup=False, quote_p=quote_p, long_p=0.08, corner_p=0.01)
+        s = gen_sibs(rng, n, allow_dup=False, quote_p=quote_p, long_p=0.025, corner_p=0.004)
         while sc == "definitions" and len(s) < 2:
-            s = gen_sibs(rng, 3, allow_dup=False, quote_p=quote_p, long_p=0.08, corner_p=0.01)
+            s = gen_sibs(rng, 3, allow_dup=False, quote_p=quote_p, long_p=0.025, corner_p=0.004)
         inp[sc] = s
     inp["netlist_name"] = gen_sibs(rng, 1, False, quote_p, pre_p=0.0)[0]["name"]
     inp["top_name"] = gen_sibs(rng, 1, False, quote_p, pre_p=0.0)[0]["name"]
+    if rng.random() < 0.4:
+        # sub-stream outside the sub-domains of the open make_valid findings (no `-`, no upper case,
+        # at most 200 characters), so that the compose/parse clause is exercised on the pinned tree too
+        inp["benign"] = True
+
+        def tame(x):
+            return x.lower().replace("-", "+")[:200] if x is not None else None
+        for sc in SCOPES:
+            seen = set()
+            out = []
+            for sb in inp[sc]:
+                sb = {"name": tame(sb["name"]), "ident": tame(sb["ident"]), "rename": sb["rename"]}
+                if sb["ident"] is not None and illegal_kind(sb["ident"]) is not None:
+                    sb["ident"] = None
+                if sb["name"] in seen or (sb["ident"] is not None and sb["ident"] in seen):
+                    continue
+                seen.add(sb["name"])
+                if sb["ident"] is not None:
+                    seen.add(sb["ident"])
+                out.append(sb)
+            inp[sc] = out
+        inp["netlist_name"] = tame(inp["netlist_name"])
+        inp["top_name"] = tame(inp["top_name"])
+        if len(inp["definitions"]) < 2:
+            inp["definitions"] = [{"name": "leaf0", "ident": None, "rename": False}, {"name": "top0", "ident": None, "rename": False}]
+        if not inp["libraries"]:
+            inp["libraries"] = [{"name": "work", "ident": None, "rename": False}]
     # widths of the cables / ports (1 = scalar)
     inp["cable_w"] = [1 if rng.random() < 0.9 else rng.randint(2, 3) for _ in inp["cables"]]
     inp["port_w"] = [1 if rng.random() < 0.8 else rng.randint(2, 3) for _ in inp["ports"]]
@@ -326,10 +354,36 @@ def _set_policy(p="DEFAULT"):
 
 
 def _observe(objs, pre):
+    from spydrnet.composers.edif.composer import ComposeEdif
+    comp = ComposeEdif()
     out = []
     for o, s in zip(objs, pre):
+        try:
+            rn, text = comp._get_name_string_(o)      # what the writer puts into the file for this object
+            tok = [bool(rn), text]
+        except Exception as e:
+            tok = ["raised", exc_family(e)]
         out.append({"name": s["name"], "ident": o.data.get("EDIF.identifier"),
-                    "rename": bool(o.data.get("EDIF.rename", False)), "assigned": s.get("ident") is None})
+                    "rename": bool(o.data.get("EDIF.rename", False)), "assigned": s.get("ident") is None,
+                    "token": tok})
+    return out
+
+
+def oracle_tokens(obs):
+    """'records the original name as a rename': what the writer emits for each element it named."""
+    out = []
+    for i, x in enumerate(obs):
+        if not x["assigned"] or not isinstance(x["ident"], str):
+            continue
+        tok = x.get("token")
+        if tok is None:
+            continue
+        if x["ident"] != x["name"] or x["rename"]:
+            want = [True, "rename " + x["ident"] + ' "' + x["name"] + '"']
+        else:
+            want = [False, x["ident"]]
+        if tok != want:
+            out.append(("get_name_string.original-name-not-written", i, "writer emits %r, expected %r" % (tok, want)))
     return out
 
 
@@ -350,12 +404,17 @@ def impl_free(inp):
         objs.append(o)
     comp = ComposeEdif()
     names = EdififyNames()
+    k = len(objs) // 2
+    try:
+        direct = EdififyNames().make_valid(objs[k], objs)     # the public entry point, nothing stored
+    except Exception as e:
+        direct = {"raised": exc_family(e)}
     try:
         for o in objs:
             comp._add_rename_property(o, objs, names)
     except Exception as e:  # the model never refuses
         return {"raised": exc_family(e), "msg": repr(e)[:200]}
-    return {"obs": _observe(objs, inp["sibs"])}
+    return {"obs": _observe(objs, inp["sibs"]), "direct": [k, direct]}
 
 
 def build_netlist(inp):
@@ -408,10 +467,17 @@ def build_netlist(inp):
     return nl, home, top, pre
 
 
+class BuildRefused(Exception):
+    pass
+
+
 def impl_netlist(inp, tmpdir):
     """Build the netlist, sdn.compose to EDIF, observe every scope, parse back."""
     import spydrnet as sdn
-    nl, home, top, pre = build_netlist(inp)
+    try:
+        nl, home, top, pre = build_netlist(inp)
+    except Exception as e:
+        raise BuildRefused(exc_family(e))
     path = os.path.join(tmpdir, "n.edf")
     try:
         sdn.compose(nl, path)
@@ -430,7 +496,7 @@ def impl_netlist(inp, tmpdir):
             "top_index": list(home.definitions).index(top)}
 
 
-def reparse_guarded(res, risky, timeout=6.0):
+def reparse_guarded(res, risky, timeout=8.0):
     """`reparse`, in a forked child with a wall-clock limit when `risky` (the reader's string-token
     regular expression backtracks exponentially after a `%`; `re` cannot be interrupted in-process)."""
     if not risky:
@@ -544,9 +610,13 @@ class Runner:
                               "sibs": [{"name": s["name"], "ident": s.get("ident"), "rename": bool(s.get("rename"))} for s in pre]})
             if "error" in r:
                 continue
-            if [(o["ident"], o["rename"]) for o in r["out"]] == impl_out:
+            if [(o["ident"], o["rename"], o.get("token")) for o in r["out"]] == impl_out:
                 return [RULES[i] for i in range(4) if m >> i & 1]
         return None
+
+    @staticmethod
+    def _ascii(pre):
+        return all(32 <= ord(c) < 127 for s in pre for c in s["name"] + (s.get("ident") or ""))
 
     def check_scope(self, inp, scope, pre, obs, report=True):
         """Returns (set of P-failure signatures, list of corr mismatch records)."""
@@ -564,8 +634,8 @@ class Runner:
                 self.res["obligations"].append(("conflict-fix recursion finished within the proved fuel", False, json.dumps(pre)[:300]))
             if not m.get("scopeOk", True):
                 self.res["obligations"].append(("Spec.scopeOk holds on the model's own output (theorem assign_all_scopeOk)", False, json.dumps(pre)[:300]))
-            impl_out = [(o["ident"], o["rename"]) for o in obs]
-            model_out = [(o["ident"], o["rename"]) for o in m["out"]]
+            impl_out = [(o["ident"], o["rename"], o.get("token")) for o in obs]
+            model_out = [(o["ident"], o["rename"], o.get("token")) for o in m["out"]]
             if impl_out != model_out:
                 why = self.attribute(pre, impl_out)
                 if report:
@@ -591,6 +661,7 @@ class Runner:
             if "error" in sp or lean_bad != py_bad:
                 self.res["obligations"].append(("python oracle for P == Lean Spec.scopeOk", False,
                                                 "lean %r python %r on %s" % (lean_bad, py_bad, json.dumps(obs)[:300])))
+        fails = fails + oracle_tokens(obs)
         for sig, i, detail in fails:
             sigs.add(sig)
         self._last_fails = fails
@@ -603,13 +674,38 @@ class Runner:
                 self.res.spec_failure("add_rename_property.raised-" + r["raised"], inp, r["msg"])
             return {"add_rename_property.raised-" + r["raised"]}
         sigs = self.check_scope(inp, inp["scope"], inp["sibs"], r["obs"], report)
+        if report and "corr" not in sigs and "direct" in r and self._ascii(inp["sibs"]):
+            # direct make_valid call == Spydr.Names.makeValid (only when the scope itself corresponds:
+            # a divergence there is already reported and attributed)
+            k, got = r["direct"]
+            sib = inp["sibs"]
+            m = self.drv.ask({"fn": "makeValid", "name": sib[k]["name"],
+                              "others": [{"name": x["name"], "ident": x.get("ident"), "rename": False} for j, x in enumerate(sib) if j != k]})
+            if m.get("id") != got:
+                why = None
+                for mask in sorted(range(1, 16), key=lambda q: bin(q).count("1")):
+                    rules = [not bool(mask >> i & 1) for i in range(4)]
+                    mo = self.drv.ask({"fn": "makeValid", "rules": rules, "name": sib[k]["name"],
+                                       "others": [{"name": x["name"], "ident": x.get("ident"), "rename": False} for j, x in enumerate(sib) if j != k]})
+                    if mo.get("id") == got:
+                        why = [RULES[i] for i in range(4) if mask >> i & 1]
+                        break
+                if why is None:
+                    self.res.corr_mismatch("EdififyNames.make_valid == Spydr.Names.makeValid", inp, impl=got if not isinstance(got, str) else got[:60], model=str(m.get("id"))[:60])
+                    self.res.dist("corr.direct.unattributed")
+                else:
+                    for rule in why:
+                        self.res.corr_mismatch("EdififyNames.make_valid == Spydr.Names.makeValid", inp, impl=got[:60], model=str(m.get("id"))[:60], signature=RULE_SIG[rule])
+            else:
+                self.res.dist("corr.direct.equal")
         if report:
             for sig in sorted(s for s in sigs if s != "corr"):
                 self.res.dist("P.fail." + sig)
                 if not self.first(sig):
                     continue
                 small = self.shrink_free(inp, sig)
-                d = [f for f in oracle_scope(impl_free(small).get("obs", [])) if f[0] == sig]
+                so = impl_free(small).get("obs", [])
+                d = [f for f in oracle_scope(so) + oracle_tokens(so) if f[0] == sig]
                 self.res.spec_failure(sig, small, d[0][2] if d else "")
         return sigs
 
@@ -623,7 +719,7 @@ class Runner:
         r = impl_free(inp)
         if "raised" in r:
             return {"add_rename_property.raised-" + r["raised"]}
-        return set(f[0] for f in oracle_scope(r["obs"]))
+        return set(f[0] for f in oracle_scope(r["obs"]) + oracle_tokens(r["obs"]))
 
     def shrink_free(self, inp, sig, budget=400):
         """Greedy: drop siblings, then shorten / simplify names, keeping `sig` failing."""
@@ -687,9 +783,9 @@ class Runner:
         try:
             try:
                 r = impl_netlist(inp, d)
-            except Exception as e:
-                # the generator built something the IR refuses: not a case
-                self.res.dist("netlist.build-refused." + exc_family(e))
+            except BuildRefused as e:
+                # the generator asked for something the IR refuses (never seen so far): not a case
+                self.res.dist("netlist.build-refused." + str(e))
                 return sigs
             if "raised" in r:
                 sig = "compose.raised-" + r["raised"]
@@ -813,7 +909,7 @@ def nontrivial(inp):
 
 def tags(res, inp):
     if inp.get("level") == "netlist":
-        res.dist("level.netlist")
+        res.dist("level.netlist" + (".benign" if inp.get("benign") else ""))
         lists = [inp[sc] for sc in SCOPES]
     else:
         res.dist("level.free." + inp["scope"])
@@ -994,6 +1090,10 @@ def run(ctx):
         "(no algorithm can give fresh identifiers of bounded length to arbitrarily many siblings)",
         "pre-existing EDIF.identifier values in generated inputs are legal and pairwise distinct ignoring case (as a reader leaves them)",
         "netlist-level observation of net identifiers is of the cable's EDIF.identifier; the per-bit `<id>_<i>_` identifiers of a bus are only observed through the re-read",
+    ]
+    ctx.partial_notes = [
+        "partial: the last clause of C17 ('the exported file is always readable again and the re-read netlist shows the original names') is "
+        "observed at run time on every generated netlist (sdn.compose + sdn.parse), not proved in Lean (needs the EDIF reader/writer model)",
     ]
     lean.check_obligations(ctx, "Spydr/Names", MODULES, ["drv_names"], "Spydr/Names/Audit.lean", THEOREMS)
     if not os.path.exists(os.path.join(lean.LEAN, ".lake", "build", "bin", "drv_names")):
